@@ -693,7 +693,7 @@ def check(prop: str, tier: str, seed: int) -> int:
     scen += witnesses(prop)
     execute_and_judge(run, scen, own)
     conformance(run, scen, run.last_traces, 150 if quick else 1500, rnd)
-    if prop in ("C05", "C09", "C10"):
+    if prop in ("C05", "C08", "C09", "C10"):
         from . import checks_api
         checks_api.extend(run, prop, tier, rnd)
     if prop in ("C04", "C10") and not quick:
@@ -763,6 +763,14 @@ def fam_payload(tier: str, rnd: random.Random) -> list[dict]:
                         f = {"k": "anstrail", "d": 1, "trail": pats[(pi + n) % len(pats)]}
                     sc.update(family="payload", epochs=[[{"start": 0, "prog": [req(reg, n=n)]}]], rfaults=[[f]], payloads={str(reg): pat})
                     out.append(sc)
+            if fr == "aa55":
+                # AA55 answers of every announced payload length (also none at all) to every kind of command
+                for ln in ((0, 1, 2, 3, 7, 9, 64, 254, 255) if quick else range(256)):
+                    for step in (req(300, n=1), req(301, n=4), req(302, "write", v=7)):
+                        sc = base(kind, ka, 0, fr)
+                        sc.update(family="payload", epochs=[[{"start": 0, "prog": [dict(step)]}]], rfaults=[[{"k": "ans", "d": 1}]],
+                                  aa55_len=ln)
+                        out.append(sc)
             if fr != "aa55":
                 for reg in regs[:6]:
                     for v in (0xAA55 - 65536, 0x55AA, -1, 0, 0x7FC0):
@@ -773,12 +781,34 @@ def fam_payload(tier: str, rnd: random.Random) -> list[dict]:
     return out
 
 
+def fam_invalid(tier: str, rnd: random.Random) -> list[dict]:
+    """End to end for C01: the valid answer mutated by every wire-level mutation class, delivered whole and in two pieces
+    (cut before / inside / after the header) to a running protocol object; whatever completes the request must be a frame the
+    specification accepts for the command."""
+    quick = tier == "quick"
+    out = []
+    for kind, fr in (("udp", "rtu"), ("udp", "aa55"), ("tcp", "tcp")):
+        steps = [req(100, n=2), req(100, n=8), req(100, "write", v=5)]
+        if fr != "aa55":
+            steps.append(req(100, "wmulti", payload="0011223344556677"))
+        for step in steps:
+            for i in range(48 if quick else 400):
+                for split in ((0, 5, 9, 12) if quick else (0, 3, 5, 7, 8, 9, 10, 12, 15)):
+                    sc = base(kind, True, 0, fr)
+                    sc.update(family="invalid", epochs=[[{"start": 0, "prog": [dict(step)]}]],
+                              rfaults=[[{"k": "mut", "i": i, "split": split, "d": 1, "d2": 2, "seed": 1 + i % 7}]])
+                    out.append(sc)
+    return out
+
+
 def wire_level(run: Run, prop: str, tier: str, rnd: random.Random) -> None:
     """The parts of C02 / C03 that only show on the wire of a running protocol object: C02 - a conforming answer is
     delivered whatever its bytes look like; C03 - what is transmitted (also on retransmissions and after failed
     connects) is the command's canonical frame, with a Modbus/TCP transaction id that changes with every transmission."""
     if prop == "C02":
         scen = fam_payload(tier, rnd)
+    elif prop == "C01":
+        scen = fam_invalid(tier, rnd)
     else:
         scen = fam_script([1], [0], faults_key="hist", conn_variants=True)
         if tier != "quick":
